@@ -1381,7 +1381,7 @@ Proof.
     assert (Ep' : p = mkParam (Has (c :: r)) (g_typ g) (Some x)) by exact Ep.
     rewrite Htyp in Ep'.
     assert (Hsdd : DocEmit.sdd_doc n p true = Ok (sentence (c :: r) s, mkParam (Has (sentence (c :: r) s)) (Has t) (Some v'))).
-    { unfold DocEmit.sdd_doc. rewrite Ep', Hsw. reflexivity. }
+    { unfold DocEmit.sdd_doc. rewrite Ep'. unfold str in *. rewrite Hsw. reflexivity. }
     destruct (sentence_fine (c :: r) s Hdf Hclean Htok) as [Hsf Hstok].
     assert (Hwr : wrap_fine w ww (DocEmit.rest_doc_line n (sentence (c :: r) s))).
     { intros Eww. subst ww. unfold entry_nowrap in Hnw. cbn [negb orb fst snd] in Hnw.
@@ -1389,8 +1389,8 @@ Proof.
     assert (Hwf : wfine (sentence (c :: r) s)).
     { destruct Hsf as [_ [Hsnl [Hse _]]]. apply wfine_of; [exact Hse|exact Hsnl|].
       unfold no_trailing_bslash in *. unfold sentence.
-      destruct (value_text_clean_inv s Hclean) as [_ [_ [l [Hl _]]]].
-      rewrite app_assoc. rewrite last_c_app_nonnil; [exact Hsb|]. intros E. rewrite E in Hl. discriminate. }
+      destruct (value_text_clean_inv s Hclean) as [_ [_ [l [Hls _]]]].
+      rewrite app_assoc. rewrite last_c_app_nonnil; [exact Hsb|]. intros E. rewrite E in Hls. discriminate. }
     rewrite Ep in Hpar. rewrite Ep', <- Htyp in Hsdd.
     eexists. eexists. eexists.
     eapply (lk_doc w ww true n g c r (Some x) (sentence (c :: r) s)); try eassumption.
@@ -1445,3 +1445,86 @@ Proof.
     assert (Hf : In kv (filter documented (ir_params i))) by (apply filter_In; split; assumption).
     destruct (filter documented (ir_params i)); [destruct Hf|discriminate].
 Qed.
+
+(* ---- the closed corollary of C02_partial: no docstring hypothesis ---- *)
+
+Theorem C02_partial_closed_lemma : forall w pt i cn bs ds edd ww it ww',
+    guard_C02_ast i = true -> doc_link_ok w edd ww i = true ->
+    exists text s i',
+      class_docstring_text w edd ww i = Ok text
+      /\ emit_class pt i false cn bs ds ww (class_docstring_text w edd ww i) = Ok (s, i)
+      /\ parse_class (Some (class_docstring_ir text)) (CStmt s) None it ww' = Ok i'
+      /\ ir_params i' = norm_params_C02 (ir_params i)
+      /\ ir_returns i' = norm_returns_C02 (ir_returns i)
+      /\ same_interface_strict (zero_default_norm i) i' = true
+      /\ same_interface (zero_default_norm i) i' = true
+      /\ same_interface i i' = true.
+Proof.
+  intros w pt i cn bs ds edd ww it ww' Hg Hok.
+  destruct (C02_doc_link_lemma w edd ww i Hg Hok) as [text [d [Ht [Hd Ha]]]].
+  destruct (C02Compose.C02_partial_lemma pt i cn bs ds ww text d it ww' Hg Ha) as [s [i' H]].
+  exists text, s, i'. rewrite Ht, Hd. split; [reflexivity|]. exact H.
+Qed.
+
+(* ---- non-vacuity and the excluded region ---- *)
+
+Definition gp (d t : option str) (v : option pyval) : gparam :=
+  mkG (match d with Some x => Has x | None => Missing end) (match t with Some x => Has x | None => Missing end)
+      (option_map DV v).
+
+(* several parameters, with and without defaults and prose, a return entry *)
+Definition w_link_ok : ir :=
+  mkIR FNone (Has (L "static")) (Has (L "Doc summary."))
+       [(L "a", gp (Some (L "first one.")) (Some (L "int")) (Some (VInt 5)));
+        (L "b", gp (Some (L "second")) (Some (L "str")) None);
+        (L "s", gp (Some (L "a name,")) (Some (L "str")) (Some (VStr (L "hello"))));
+        (L "c", gp None (Some (L "float")) (Some (VFloat (L "1.5"))))]
+       (Has (gp (Some (L "the result")) (Some (L "int")) None)) None.
+
+Lemma C02_doc_link_nonvacuous :
+  guard_C02_ast w_link_ok = true
+  /\ forallb (fun o => doc_link_ok 100 (fst o) (snd o) w_link_ok && doc_link_b 100 (fst o) (snd o) w_link_ok)
+             [(false, false); (false, true); (true, false); (true, true)] = true.
+Proof. vm_compute. split; reflexivity. Qed.
+
+Definition one_param (d : str) (edd_default : option pyval) : ir :=
+  mkIR FNone (Has (L "static")) (Has (L "Doc."))
+       [(L "a", gp (Some d) (Some (L "int")) edd_default)] FNone None.
+
+(* inside guard_C02_ast, outside doc_link_ok, and the link really fails (the composed model does not give back
+   the prose): one witness per reason *)
+Definition link_fails (edd : bool) (i : ir) : bool :=
+  guard_C02_ast i && negb (doc_link_ok 100 edd false i) && negb (doc_link_b 100 edd false i).
+
+Definition w_no_terminal : ir := one_param (L "first one") (Some (VInt 5)).     (* edd: a full stop is inserted *)
+Definition w_backslash : ir := one_param (L "ends with \") None.               (* multiline() strips it *)
+Definition w_tab : ir := one_param (L "a" ++ [tabch] ++ L "b") None.             (* cleandoc expands the tab *)
+Definition w_token : ir := one_param (L "see :cvar x") None.                     (* the scanner splits the prose *)
+Definition w_announces : ir := one_param (L "it defaults to 3.") None.          (* read as a default, removed *)
+Definition w_no_entry : ir :=                                                    (* read as numpydoc: declined *)
+  mkIR FNone (Has (L "static")) (Has (L "Doc.")) [(L "a", gp None (Some (L "int")) None)] FNone None.
+
+Lemma C02_doc_link_refuted_outside :
+  link_fails true w_no_terminal = true /\ link_fails false w_backslash = true /\ link_fails false w_tab = true
+  /\ link_fails false w_token = true /\ link_fails false w_announces = true /\ link_fails false w_no_entry = true.
+Proof. vm_compute. repeat split; reflexivity. Qed.
+
+(* so doc_agrees does NOT follow from guard_C02_ast alone *)
+Theorem C02_doc_link_needs_side_condition :
+  ~ (forall w edd ww i, guard_C02_ast i = true ->
+       exists text d, class_docstring_text w edd ww i = Ok text /\ class_docstring_ir text = Ok d
+                      /\ doc_agrees i d = true).
+Proof.
+  intros H. destruct (H 100 false false w_backslash eq_refl) as [text [d [Ht [Hd Ha]]]].
+  assert (E : doc_link_b 100 false false w_backslash = true).
+  { unfold doc_link_b. rewrite Ht, Hd. exact Ha. }
+  vm_compute in E. discriminate E.
+Qed.
+
+(* a docstring-level failure that finding_class_C02 does not name: prose ending in a backslash loses it
+   (to_docstring's multiline() strips trailing backslashes); real code: 'ends with \' comes back 'ends with' *)
+Lemma C02_trailing_backslash_unclassified :
+  finding_class_C02 (mkO02 false false) w_backslash = None /\ finding_class_C02 (mkO02 true true) w_backslash = None
+  /\ C02_domain w_backslash = true /\ guard_C02_ast w_backslash = true
+  /\ doc_link_b 100 false false w_backslash = false.
+Proof. vm_compute. repeat split; reflexivity. Qed.
